@@ -154,7 +154,7 @@ def write_replay(pid, name, payload):
         json.dump(payload, f, indent=1, sort_keys=True)
     return p
 
-def proof_stage(prop):
+def proof_stage(prop, tier='quick'):
     """Returns dict with obligations/discharged/axioms, list of problems."""
     problems = []
     info = {'obligations': 0, 'discharged': 0, 'theorems': [], 'assumptions': {}}
@@ -185,6 +185,15 @@ def proof_stage(prop):
             continue
         ok += 1
     info['discharged'] = ok if not gate else 0
+    if tier == 'thorough':
+        try:
+            ok, axs, summary = coqrun.coqchk(prop.ID)
+            info['coqchk'] = summary[:1500]
+            bad = [a for a in axs if a.split('.')[-1] not in coqrun.ALLOWED_AXIOMS and a not in coqrun.ALLOWED_AXIOMS]
+            if not ok or bad:
+                problems.append(('coqchk', 'independent re-check failed or reports axioms %s: %s' % (bad, summary[-400:])))
+        except Exception as e:
+            problems.append(('coqchk', 'coqchk could not be run: %r' % e))
     expected = getattr(prop, 'THEOREMS', None)
     if expected:
         missing = [t for t in expected if t not in theorems]
@@ -211,7 +220,7 @@ def _evaluate(prop, cases):
 
 def _run_check(prop, tier, seed, replay, t0, violations, known_lines):
     pid = prop.ID
-    info, problems = proof_stage(prop)
+    info, problems = proof_stage(prop, tier)
     log('[%s] proof stage: %d/%d obligations, %d problems (%.1fs)' % (pid, info['discharged'], info['obligations'], len(problems), time.time() - t0))
 
     if replay:
@@ -343,11 +352,13 @@ def _run_check(prop, tier, seed, replay, t0, violations, known_lines):
             'theorems': info['theorems'],
             'axioms_reported': axioms if axioms else ['none: every theorem is closed under the global context'],
             'proof_problems': [d[:300] for _, d in problems],
+            'coqchk': info.get('coqchk', 'not run in the quick tier (run by the thorough tier: coqchk -o on Properties/%s.vo and all its dependencies)' % pid),
             'evaluations': len(cases), 'distinct_nontrivial': len(nontrivial),
             'rule': getattr(prop, 'RULE', ''),
             'traces_validated_against_impl': compared,
             'samples': samples, 'input_distribution': dist,
             'known_finding_hits': {k: len(v) for k, v in known_hits.items()},
+            'model_evaluations_not_finished_in_time': coqrun.MODEL_TIMEOUTS[0],
         },
         'assumptions': list(getattr(prop, 'ASSUMPTIONS', [])),
         'wall_s': round(time.time() - t0, 1),
